@@ -281,6 +281,64 @@ fn run_ctap(rep: &mut Report, c: &Case, index: u64, outcomes: &mut HashMap<Strin
     rep.sample_class(&format!("{}|missing={:?}|ok={}", if c.make { "make" } else { "get" }, c.consent_missing().is_some(), ok), json!({"case": cj, "status": status, "events": o.events.iter().map(|e| e.ev.to_json()).collect::<Vec<_>>()}));
 }
 
+/// The store changes while the user is being asked (another credential for the same RP arrives):
+/// whatever signs afterwards is what was shown.
+fn arrivals_during_consent(rep: &mut Report, only: Option<u64>) {
+    let mut index = 50_000u64;
+    for counters in [false, true] {
+        for newest_first in [false, true] {
+            for allow in [0u8, 1, 2] {
+                for arrival_counter in [None, Some(0u32), Some(99)] {
+                    index += 1;
+                    if only.map_or(false, |o| o != index) {
+                        continue;
+                    }
+                    rep.eval();
+                    let cj = json!({"index": index, "level": "ctap", "part": "credential arrives during consent", "held_credential_has_counter": counters, "store_lists_newest_first": newest_first,
+                        "allow_list": (["absent", "names both", "names the arriving one first"][usize::from(allow)]), "arriving_credential_counter": arrival_counter});
+                    rep.nontrivial(fnv_str(&cj.to_string()));
+                    let mut rng = Rng::derive(7, "c04arr", index);
+                    let rig = Rig::ok(Disc::Full);
+                    rig.store.set_newest_first(newest_first);
+                    let id_a = vec![0xA0u8; 16];
+                    let id_b = vec![0xB0u8; 16];
+                    let (a, _, _) = seeded_passkey(&mut rng, RP, &id_a, Some(b"user"), counters.then_some(10), None);
+                    let (b, _, _) = seeded_passkey(&mut rng, RP, &id_b, Some(b"user2"), arrival_counter, None);
+                    rig.store.insert_raw(a);
+                    rig.uv.set_arrival_during_check(rig.store.clone(), b);
+                    let mut auth = rig.auth(AuthCfg { counters: true, ..Default::default() });
+                    let allow_list = match allow {
+                        1 => Some(vec![descriptor(&id_a), descriptor(&id_b)]),
+                        2 => Some(vec![descriptor(&id_b), descriptor(&id_a)]),
+                        _ => None,
+                    };
+                    match catch(|| block_on(auth.get_assertion(ga_request(RP, &[2u8; 32], allow_list, None, true, true)))) {
+                        Err((sig, d)) => rep.violate(&format!("ctap: ceremony {sig}"), d, cj),
+                        Ok(Err(_)) => rep.count("arrival_cases_refused"),
+                        Ok(Ok(r)) => {
+                            rep.count("arrival_cases_signed");
+                            let used = r.credential.as_ref().map(|d| d.id.to_vec()).unwrap_or_default();
+                            let events = rig.log.snapshot();
+                            let shown = last_check(&events, events.len()).and_then(|c| c.0);
+                            if shown.as_ref() != Some(&used) {
+                                rep.violate("ctap: credential shown to the user for consent is not the one that signed", format!("shown {:?} used {} (a credential arrived in the store during the prompt)", shown.as_ref().map(|s| hex_short(s)), hex_short(&used)), cj.clone());
+                            }
+                            // the counter written back belongs to the credential that signed
+                            for e in &events {
+                                if let Ev::Update { id, result: Ok(()), .. } = &e.ev {
+                                    if id != &used {
+                                        rep.violate("ctap: the counter of a credential other than the one that signed was written", hex_short(id), cj.clone());
+                                    }
+                                }
+                            }
+                        }
+                    }
+                }
+            }
+        }
+    }
+}
+
 fn run_client(rep: &mut Report, index: u64, register: bool, uvr: UserVerificationRequirement, ver_cap: Option<bool>, outcome: UvOutcome, store: StoreContent, outcomes: &mut HashMap<String, Vec<(StoreContent, bool, Option<u8>)>>) {
     rep.eval();
     let cj = json!({"index": index, "level": "client", "op": if register {"register"} else {"authenticate"}, "userVerification": format!("{uvr:?}"),
@@ -337,7 +395,7 @@ pub fn run(args: &Args) -> Report {
         "C04",
         &args.tier,
         args.seed,
-        "complete product operation x rk x up x uv x verification capability x presence capability x user-validation outcome (4 reports + 2 errors) x pin-auth x store content (no / one / two matching credentials, exclude-list hit or miss; for assertions: no allow list / naming a held id / naming an unknown id) at CTAP level, plus userVerification x capability x outcome x store content at client level; distinct by the tuple; every tuple is non-trivial (finite product)",
+        "complete product operation x rk x up x uv x verification capability x presence capability x user-validation outcome (4 reports + 2 errors) x pin-auth x store content (no / one / two matching credentials, exclude-list hit or miss; for assertions: no allow list / naming a held id / naming an unknown id) at CTAP level, plus 36 assertion cases in which another credential of the RP arrives in the store while the user is being asked, plus userVerification x capability x outcome x store content at client level; distinct by the tuple; every tuple is non-trivial (finite product)",
     );
     rep.exhaustive = true;
     let only = replay_index(args);
@@ -373,6 +431,9 @@ pub fn run(args: &Args) -> Report {
         }
     }
     rep.obs("client_product_size", json!(k - 100_000));
+    if only.map_or(true, |o| (50_000..60_000).contains(&o)) {
+        arrivals_during_consent(&mut rep, only);
+    }
     // (I4) while consent is missing the outcome does not depend on the store content
     for (group, v) in &outcomes {
         let first = (v[0].1, v[0].2);
